@@ -18,6 +18,8 @@ for f in sorted(glob.glob('/tmp/evalmut-C*-*.json')):
         if os.path.exists(f'/verif/seeded/{ident}/patch.diff'):
             continue   # assembled in an earlier session
         print('SOURCE MISSING', ident); continue
+    if ident in ('C08r5-1',):
+        print('EXCLUDED (edits a snapshot file of the suite)', ident); continue
     ok = (not r.get('error') and r.get('suite_with_patch',{}).get('passed')==1032 and r.get('suite_with_patch',{}).get('failed')==0
           and r.get('demo_with_patch') and r['demo_with_patch'][1]>0 and r.get('demo_clean') and r['demo_clean'][1]==0)
     if not ok:
